@@ -2,7 +2,12 @@ import Uniseg.Properties.C01
 import Uniseg.Properties.C02
 import Uniseg.Properties.C03
 import Uniseg.Properties.C04
-/-! # C11 — segmentation is compositional at its own boundaries (suffix half)
+import Uniseg.Proofs.Cut
+import Uniseg.Cert.GraphemeCut
+import Uniseg.Cert.WordCut
+import Uniseg.Cert.SentenceCut
+import Uniseg.Cert.LineCut
+/-! # C11 — segmentation is compositional at its own boundaries
 
 If the verdict before code point `x` (at some position ≥ 1 of a text `pre ++ x :: suf`) is a reported
 boundary, then the run continues after `x` exactly as a fresh run (from state −1) on the suffix
@@ -14,8 +19,12 @@ The certificate obligation behind it ("after a boundary verdict the new state eq
 fresh start reaches", for every reachable product node, letter and promise) is part of the
 kernel-checked closure of each algorithm (`Closure.checkPair`).
 
-The prefix half (cutting at `p` does not change the verdicts before `p`, although it shortens the
-look-ahead) is decided on the real code by the C11 monitor; see DESIGN.md. -/
+The prefix half: cutting at a reported boundary `p` shortens the look-ahead of the positions before
+`p`, but does not change their verdicts (`prefix_cut`, `word_prefix`, …). It is a statement about the
+annex itself — if the look-ahead of a rule reaches across `p` and matters, the rules place no
+boundary at `p` — proved for the spec automaton by a second kernel-checked certificate
+(`Proofs/Cut`: two runs, full text and cut text, over the same letters) and carried over to the
+implementation by C01–C04. -/
 namespace Uniseg.Properties.C11
 open Uniseg Uniseg.Gen Uniseg.Auto Uniseg.Chain Uniseg.Spec Uniseg.Lift
 
@@ -54,6 +63,96 @@ theorem restart (c : Cert L R Q) (hv : c.Valid A)
   have := restart_at_boundary A c hv (pre.map φ) (φ x) (suf.map φ) (by simpa using hpre) hw' hb'
   rw [← List.map_cons, hs, ← h, ← h] at this
   exact ⟨this, by rw [this]⟩
+
+theorem tail_take {α : Type} : ∀ (l : List α) (n : Nat), (l.take n).tail = l.tail.take (n - 1) := by
+  intro l n
+  cases l with
+  | nil => simp
+  | cons a as =>
+    cases n with
+    | zero => simp
+    | succ n => simp
+
+theorem tail_getElem? {α : Type} (l1 l2 : List α) (h : l1.tail = l2.tail) (p : Nat) (hp : 1 ≤ p) : l1[p]? = l2[p]? := by
+  obtain ⟨k, rfl⟩ : ∃ k, p = k + 1 := ⟨p - 1, by omega⟩
+  have h1 : ∀ (l : List α), l[k + 1]? = l.tail[k]? := by
+    intro l; cases l <;> simp
+  rw [h1 l1, h1 l2, h]
+
+/-- **cutting at a reported boundary**, for any algorithm with valid certificates: the verdicts the
+implementation reports inside `pre` when run over `pre ++ y :: ys` are those it reports for `pre`
+alone, provided it reports a boundary before `y` -/
+theorem prefix_cut (c : Cert L R Q) (hv : c.Valid A) (cc : CutCert L R Q) (hcv : cc.Valid A)
+    (h : ∀ st r rest, tr st r rest = A.trans st (φ r) (la A (rest.map φ)))
+    (pre : List Nat) (y : Nat) (ys : List Nat) (hpre : pre ≠ [])
+    (hw : ∀ r ∈ pre ++ y :: ys, φ r ∈ c.letters) (hw2 : ∀ r ∈ pre ++ y :: ys, φ r ∈ cc.letters)
+    (v : V) (hv1 : ((runV tr none (pre ++ y :: ys)).map (·.2))[pre.length]? = some v) (hb : A.isB v = true) :
+    ((runV tr none pre).map (·.2)).tail = (((runV tr none (pre ++ y :: ys)).map (·.2)).tail).take (pre.length - 1) := by
+  have hwl : ∀ x ∈ (pre ++ y :: ys).map φ, x ∈ c.letters := by
+    intro x hx; obtain ⟨r, hr, rfl⟩ := List.mem_map.mp hx; exact hw r hr
+  have hwl2 : ∀ x ∈ pre.map φ ++ φ y :: ys.map φ, x ∈ cc.letters := by
+    intro x hx
+    rw [← List.map_cons, ← List.map_append] at hx
+    obtain ⟨r, hr, rfl⟩ := List.mem_map.mp hx; exact hw2 r hr
+  have hpl : ∀ x ∈ pre.map φ, x ∈ c.letters := by
+    intro x hx; obtain ⟨r, hr, rfl⟩ := List.mem_map.mp hx; exact hw r (by simp [hr])
+  have efull := run_agree_start A c hv _ hwl
+  have epre := run_agree_start A c hv _ hpl
+  rw [← runV_implRun A φ tr h] at efull epre
+  -- the verdict at the cut, on the spec side
+  have hp1 : 1 ≤ pre.length := by
+    cases pre with
+    | nil => exact absurd rfl hpre
+    | cons _ _ => simp
+  have hat := tail_getElem? _ _ efull pre.length hp1
+  rw [hv1, List.map_append, List.map_cons] at hat
+  have hlen : pre.length = (pre.map φ).length := by simp
+  rw [hlen, specRun_at] at hat
+  have hb' : A.isB (A.qout (summAfter A A.q0 (pre.map φ)) (φ y) (la A (ys.map φ))) = true := by
+    cases hat; exact hb
+  have hcut := cut_at_boundary A cc hcv (pre.map φ) (φ y) (ys.map φ) hwl2 hb'
+  rw [epre, efull, hcut, tail_take, List.map_append, List.map_cons, List.length_map]
+
+/-- **both halves together, verdict level**: the verdicts of the run over `pre ++ y :: ys` (all but the
+unused first) are those of `pre` alone, then the boundary verdict, then those of `y :: ys` alone -/
+theorem verdicts_compose (c : Cert L R Q) (hv : c.Valid A) (cc : CutCert L R Q) (hcv : cc.Valid A)
+    (h : ∀ st r rest, tr st r rest = A.trans st (φ r) (la A (rest.map φ)))
+    (pre : List Nat) (y : Nat) (ys : List Nat) (hpre : pre ≠ [])
+    (hw : ∀ r ∈ pre ++ y :: ys, φ r ∈ c.letters) (hw2 : ∀ r ∈ pre ++ y :: ys, φ r ∈ cc.letters)
+    (v : V) (hv1 : ((runV tr none (pre ++ y :: ys)).map (·.2))[pre.length]? = some v) (hb : A.isB v = true) :
+    ((runV tr none (pre ++ y :: ys)).map (·.2)).tail =
+      ((runV tr none pre).map (·.2)).tail ++ v :: ((runV tr none (y :: ys)).map (·.2)).tail := by
+  have hp1 : 1 ≤ pre.length := by
+    cases pre with
+    | nil => exact absurd rfl hpre
+    | cons _ _ => simp
+  have hpc := prefix_cut A φ tr c hv cc hcv h pre y ys hpre hw hw2 v hv1 hb
+  -- the verdict at the cut is the head of the run from the state reached after `pre`
+  have hdrop := runV_drop tr none pre (y :: ys)
+  have hv2 : (tr (stateAfter tr none pre (y :: ys)) y ys).2 = v := by
+    have := congrArg (fun l => (l.map (·.2))[0]?) hdrop
+    simp only [List.map_drop, List.getElem?_drop, Nat.add_zero, runV, List.map_cons, List.getElem?_cons_zero] at this
+    rw [hv1] at this
+    cases this; rfl
+  have hrs := restart A φ tr c hv h pre y ys hpre hw (by rw [hv2]; exact hb)
+  -- split the full run at |pre|
+  have hsplit : (runV tr none (pre ++ y :: ys)).map (·.2) =
+      ((runV tr none (pre ++ y :: ys)).map (·.2)).take pre.length ++ ((runV tr none (pre ++ y :: ys)).map (·.2)).drop pre.length :=
+    (List.take_append_drop _ _).symm
+  have htl : ∀ (l1 l2 : List V), l1 ≠ [] → (l1 ++ l2).tail = l1.tail ++ l2 := by
+    intro l1 l2 hne; cases l1 with
+    | nil => exact absurd rfl hne
+    | cons _ _ => rfl
+  have hne : ((runV tr none (pre ++ y :: ys)).map (·.2)).take pre.length ≠ [] := by
+    intro hnil
+    have := congrArg List.length hnil
+    simp only [List.length_take, List.length_map, runV_length, List.length_append, List.length_cons, List.length_nil] at this
+    omega
+  rw [hsplit, htl _ _ hne, tail_take, ← hpc]
+  congr 1
+  rw [← List.map_drop, hdrop]
+  simp only [runV, List.map_cons, List.tail_cons, hv2]
+  rw [← hrs.2]
 end Generic
 
 /-- words -/
@@ -86,5 +185,103 @@ theorem grapheme_restart (pre : List Nat) (x : Nat) (suf : List Nat) (hpre : pre
     (hb : (trG (stateAfter trG none pre (x :: suf)) x suf).2 = true) :
     runV trG (some (trG none x suf).1) suf = runV trG (some (trG (stateAfter trG none pre (x :: suf)) x suf).1) suf :=
   (restart algG gbLetter trG Cert.Grapheme.cert Cert.Grapheme.valid (fun _ _ _ => rfl) pre x suf hpre hL hb).2
+
+
+/-! ## segments -/
+
+/-- replace the "end of text" mark of the last segment by the verdict that ends it -/
+def setEnd {V : Type} (v : V) : List (Nat × Option V) → List (Nat × Option V)
+  | [] => []
+  | [a] => [(a.1, some v)]
+  | a :: b :: rest => a :: setEnd v (b :: rest)
+
+theorem cutsV_ne_nil {V : Type} (isB : V → Bool) : ∀ (vs : List V) (acc : Nat), cutsV isB vs acc ≠ [] := by
+  intro vs
+  induction vs with
+  | nil => intro acc; simp [cutsV]
+  | cons u vs ih =>
+    intro acc
+    simp only [cutsV]
+    split
+    · simp
+    · exact ih _
+
+/-- the segments of a verdict list with a boundary verdict `v` in the middle are the segments of the
+part before it (its last segment now ended by `v`) followed by the segments of the part after it -/
+theorem cutsV_compose {V : Type} (isB : V → Bool) (v : V) (hb : isB v = true) (v2 : List V) :
+    ∀ (v1 : List V) (acc : Nat), cutsV isB (v1 ++ v :: v2) acc = setEnd v (cutsV isB v1 acc) ++ cutsV isB v2 1 := by
+  intro v1
+  induction v1 with
+  | nil => intro acc; simp [cutsV, hb, setEnd]
+  | cons u v1 ih =>
+    intro acc
+    simp only [List.cons_append, cutsV]
+    split
+    · rw [ih 1]
+      cases hc : cutsV isB v1 1 with
+      | nil => exact absurd hc (cutsV_ne_nil isB v1 1)
+      | cons a as => simp [setEnd]
+    · exact ih _
+
+/-- segment lists compose at a reported boundary, for any chain that is "the cuts of one run" -/
+theorem chain_compose {V : Type} (tr : Option Nat → Nat → List Nat → Nat × V) (isB : V → Bool)
+    (CH : List Rune → List (Nat × Option V))
+    (hcuts : ∀ rs, CH rs = match rs with
+      | [] => []
+      | _ :: _ => cutsV isB ((runV tr none (runeVals rs)).map (·.2)).tail 1)
+    (rp : List Rune) (ry : Rune) (rs : List Rune) (hrp : rp ≠ []) (v : V) (hb : isB v = true)
+    (hcomp : ((runV tr none (runeVals rp ++ ry.1 :: runeVals rs)).map (·.2)).tail =
+      ((runV tr none (runeVals rp)).map (·.2)).tail ++ v :: ((runV tr none (ry.1 :: runeVals rs)).map (·.2)).tail) :
+    CH (rp ++ ry :: rs) = setEnd v (CH rp) ++ CH (ry :: rs) := by
+  rw [hcuts (rp ++ ry :: rs), hcuts rp, hcuts (ry :: rs)]
+  cases rp with
+  | nil => exact absurd rfl hrp
+  | cons r0 rp' =>
+    have e1 : runeVals (r0 :: rp' ++ ry :: rs) = runeVals (r0 :: rp') ++ ry.1 :: runeVals rs := by
+      simp [runeVals]
+    have e2 : runeVals (ry :: rs) = ry.1 :: runeVals rs := by simp [runeVals]
+    simp only [List.cons_append]
+    rw [← List.cons_append, e1, e2, hcomp, cutsV_compose isB v hb]
+
+/-! ## prefix half -/
+
+/-- the cut certificates use the alphabets of the product certificates -/
+theorem cut_letters : Cert.GraphemeCut.cert.letters = Cert.Grapheme.cert.letters ∧ Cert.WordCut.cert.letters = Cert.Word.cert.letters ∧
+    Cert.SentenceCut.cert.letters = Cert.Sentence.cert.letters ∧ Cert.LineCut.cert.letters = Cert.Line.cert.letters := by
+  decide +kernel
+
+/-- words: verdicts before a reported boundary do not depend on what follows it -/
+theorem word_prefix (pre : List Nat) (y : Nat) (ys : List Nat) (hpre : pre ≠ [])
+    (hL : C02.LettersOK (pre ++ y :: ys))
+    (hb : ((runV transitionWordBreakState none (pre ++ y :: ys)).map (·.2))[pre.length]? = some true) :
+    ((runV transitionWordBreakState none pre).map (·.2)).tail =
+      (((runV transitionWordBreakState none (pre ++ y :: ys)).map (·.2)).tail).take (pre.length - 1) :=
+  prefix_cut algW wbL transitionWordBreakState Cert.Word.cert Cert.Word.valid Cert.WordCut.cert Cert.WordCut.valid
+    (transW_factor C02.fffd_inert) pre y ys hpre hL (by rw [cut_letters.2.1]; exact hL) true hb rfl
+
+/-- sentences -/
+theorem sentence_prefix (pre : List Nat) (y : Nat) (ys : List Nat) (hpre : pre ≠ [])
+    (hL : C03.LettersOK (pre ++ y :: ys))
+    (hb : ((runV transitionSentenceBreakState none (pre ++ y :: ys)).map (·.2))[pre.length]? = some true) :
+    ((runV transitionSentenceBreakState none pre).map (·.2)).tail =
+      (((runV transitionSentenceBreakState none (pre ++ y :: ys)).map (·.2)).tail).take (pre.length - 1) :=
+  prefix_cut algS sbL transitionSentenceBreakState Cert.Sentence.cert Cert.Sentence.valid Cert.SentenceCut.cert Cert.SentenceCut.valid
+    transS_factor pre y ys hpre hL (by rw [cut_letters.2.2.1]; exact hL) true hb rfl
+
+/-- lines: optional and mandatory breaks alike; the verdicts (×, ÷, !) before the cut are unchanged -/
+theorem line_prefix (pre : List Nat) (y : Nat) (ys : List Nat) (hpre : pre ≠ [])
+    (hL : C04.LettersOK (pre ++ y :: ys)) (v : LB.V)
+    (hv : ((runV trL none (pre ++ y :: ys)).map (·.2))[pre.length]? = some v) (hb : (v != LB.V.no) = true) :
+    ((runV trL none pre).map (·.2)).tail = (((runV trL none (pre ++ y :: ys)).map (·.2)).tail).take (pre.length - 1) :=
+  prefix_cut algL lbIn trL Cert.Line.cert Cert.Line.valid Cert.LineCut.cert Cert.LineCut.valid
+    transL_factor pre y ys hpre hL (by rw [cut_letters.2.2.2]; exact hL) v hv hb
+
+/-- graphemes -/
+theorem grapheme_prefix (pre : List Nat) (y : Nat) (ys : List Nat) (hpre : pre ≠ [])
+    (hL : C01.LettersOK (pre ++ y :: ys))
+    (hb : ((runV trG none (pre ++ y :: ys)).map (·.2))[pre.length]? = some true) :
+    ((runV trG none pre).map (·.2)).tail = (((runV trG none (pre ++ y :: ys)).map (·.2)).tail).take (pre.length - 1) :=
+  prefix_cut algG gbLetter trG Cert.Grapheme.cert Cert.Grapheme.valid Cert.GraphemeCut.cert Cert.GraphemeCut.valid
+    (fun _ _ _ => rfl) pre y ys hpre hL (by rw [cut_letters.1]; exact hL) true hb rfl
 
 end Uniseg.Properties.C11
